@@ -18,6 +18,7 @@ CONSTANTS
   W_AppendAlwaysTruncates = FALSE
   W_HeartbeatCommitUnbounded = FALSE
   W_QuorumMinusOne = FALSE
+  W_KeepMatchOnReset = FALSE
   PreVote = FALSE
   W_PreVoteRespCountsAsVote = FALSE
   ConfChange = FALSE
